@@ -1222,7 +1222,7 @@ def sec_circuitop(ctx, rng, case):
         good = check_resolved_ops(ctx, got_ops, want_ops, dims, env, "circuit-operation", substs, **wit)
         ctx.check(good, "circuit-op-resolved", "C10:circuit-op:content", "unrolled resolved CircuitOperation differs from the model", **wit)
     # partial: only the repetition count, only the gate symbols
-    if rep_names and eff_names - rep_names:
+    if rep_names and eff_names - rep_names and not cancels:
         r_n = cirq.resolve_parameters(co, {"n": env["n"]})
         ctx.check(isinstance(r_n.repetitions, (int, np.integer)) and int(r_n.repetitions) == rep_val
                   and (has_ph or set(cirq.parameter_names(r_n)) == names - {"n"}), "circuit-op-partial", "C10:circuit-op:partial-repetitions",
@@ -1928,13 +1928,13 @@ def sec_flatten(ctx, rng, case):
 
 # (name, function, quick cases, thorough cases, time weight ~ expected seconds of the quick tier over all shards)
 SECTIONS = [
-    ("expr", sec_expr, 6000, 150000, 150.0),
-    ("gates", sec_gates, 4000, 100000, 35.0),
-    ("circuits", sec_circuits, 1200, 30000, 32.0),
-    ("circuitop", sec_circuitop, 1200, 30000, 13.0),
-    ("sweeps", sec_sweeps, 5000, 125000, 7.0),
+    ("expr", sec_expr, 4000, 100000, 110.0),
+    ("gates", sec_gates, 3000, 75000, 27.0),
+    ("circuits", sec_circuits, 1000, 25000, 27.0),
+    ("circuitop", sec_circuitop, 1000, 25000, 11.0),
+    ("sweeps", sec_sweeps, 4000, 100000, 6.0),
     ("sweepable", sec_sweepable, 1400, 35000, 1.0),
-    ("simsweep", sec_simsweep, 1200, 30000, 20.0),
-    ("runsweep", sec_runsweep, 600, 15000, 10.0),
-    ("flatten", sec_flatten, 900, 22500, 17.0),
+    ("simsweep", sec_simsweep, 900, 22500, 15.0),
+    ("runsweep", sec_runsweep, 500, 12500, 8.0),
+    ("flatten", sec_flatten, 700, 17500, 13.0),
 ]
